@@ -266,6 +266,18 @@ def class_string(cs, reps, use_bytes=False):
     return s.encode('latin-1') if use_bytes else s
 
 
+def basic_lexer_of(lark_instance):
+    """The BasicLexer the instance already built (Lark.lex() builds a new one - with a regexp collision check - on every call)."""
+    lx = lark_instance.parser.lexer
+    lx = getattr(lx, 'lexer', lx)               # PostLexConnector
+    return getattr(lx, 'root_lexer', lx)        # ContextualLexer
+
+
+def lex_tokens(lexer, text):
+    from lark.lexer import LexerThread
+    return LexerThread.from_text(lexer, text).lex(None)
+
+
 def plain(t):
     """Tree/Token -> nested tuples for structural comparison and logging."""
     from lark import Tree, Token
